@@ -83,10 +83,18 @@ def build(name):
             number_of_servers=[2, 1],
             routing=[[0.0, 0.5], [0.0, 0.0]],
             service_disciplines=[ciw.disciplines.SIRO, ciw.disciplines.LIFO])
+    if name in ("exact_customers", "exact_low"):
+        return ciw.create_network(
+            arrival_distributions=[D.Exponential(3.0)],
+            service_distributions=[D.Exponential(4.0)],
+            number_of_servers=[1])
     raise ValueError(name)
 
 
-CONFIGS = ["sequential", "cycle", "process", "schedules", "reneging", "intervals", "continuous", "empirical"]
+EXACT = {"exact_customers": 10, "exact_low": 4}      # exact-mode configurations (decimal context is process-global)
+BY_CUSTOMERS = {"exact_customers": 25}               # run with simulate_until_max_customers(n)
+
+CONFIGS = ["sequential", "cycle", "process", "schedules", "reneging", "intervals", "continuous", "empirical", "exact_customers", "exact_low"]
 DETERMINISTIC = ["det-cycle", "det-sequential", "det-schedule"]
 
 
@@ -121,15 +129,24 @@ def _norm(x):
 
 
 def digest(Q):
-    recs = sorted((tuple(_norm(v) for v in r) for r in Q.get_all_records()), key=repr)
+    recs = sorted((tuple(_norm(v) if not hasattr(v, "as_tuple") else str(v) for v in r) for r in Q.get_all_records()), key=repr)
     hist = [(t, s) for t, s in Q.statetracker.history]
     blob = repr((recs, Q.current_time, hist))
     return hashlib.sha1(blob.encode()).hexdigest()[:16]
 
 
-def new_sim(N):
+def new_sim(N, cfg=None):
     ciw = _ciw()
+    if cfg in EXACT:
+        return ciw.Simulation(N, tracker=ciw.trackers.NodePopulation(), exact=EXACT[cfg])
     return ciw.Simulation(N, tracker=ciw.trackers.NodePopulation())
+
+
+def run_sim(Q, cfg, fraction=1.0):
+    if cfg in BY_CUSTOMERS and fraction == 1.0:
+        Q.simulate_until_max_customers(BY_CUSTOMERS[cfg])
+    else:
+        Q.simulate_until_max_time(T * fraction)
 
 
 def snapshot(obj, depth=0, seen=None):
@@ -162,7 +179,7 @@ def snapshot(obj, depth=0, seen=None):
 def reference(cfg, seed):
     """digest of the probe in a FRESH interpreter"""
     code = ("import sys; sys.path.insert(0, %r); from ciwmc.props import c15; ciw = c15._ciw(); ciw.seed(%d); "
-            "Q = c15.new_sim(c15.build(%r)); Q.simulate_until_max_time(c15.T); print(c15.digest(Q))") % (ROOT, seed, cfg)
+            "Q = c15.new_sim(c15.build(%r), %r); c15.run_sim(Q, %r); print(c15.digest(Q))") % (ROOT, seed, cfg, cfg, cfg)
     env = dict(os.environ, PYTHONDONTWRITEBYTECODE="1")
     r = subprocess.run([sys.executable, "-c", code], capture_output=True, text=True, env=env)
     if r.returncode != 0:
@@ -192,9 +209,9 @@ def run_history(args):
         elif kind in ("run_fresh", "run_shared", "leave_live"):
             c = cfg if arg == "same" else other
             N = net(c, "fresh" if kind == "run_fresh" else "shared")
-            Q = new_sim(N)
+            Q = new_sim(N, c)
             nsims += 1
-            Q.simulate_until_max_time(T / 2 if kind == "leave_live" else T)
+            run_sim(Q, c, 0.5 if kind == "leave_live" else 1.0)
             if kind == "leave_live":
                 live.append(Q)
         elif kind == "step_live":
@@ -202,9 +219,9 @@ def run_history(args):
                 Q.simulate_until_max_time(T * 0.75)
     ciw.seed(seed)
     N = net(cfg, mode)
-    Q = new_sim(N)
+    Q = new_sim(N, cfg)
     nsims += 1
-    Q.simulate_until_max_time(T)
+    run_sim(Q, cfg)
     d = digest(Q)
     if d != ref:
         out.append(("probe_differs_from_fresh_interpreter", {"config": cfg, "mode": mode, "seed": seed, "history": list(ops),
